@@ -844,3 +844,33 @@ Proof.
   - destruct k; cbn [orb negb st_ok]; apply Hfin.
   - cbn [orb negb st_ok]. apply Hfin.
 Qed.
+
+(* ---- plugin chains: the stage's verdict is the FIRST refusal ---- *)
+Lemma stage_verdict_first_refusal l v :
+  hook v <> HookOk ->
+  (stage_verdict l = v /\ hook (stage_verdict l) <> HookOk <->
+   exists pre post, l = pre ++ v :: post /\ Forall (fun x => hook x = HookOk) pre).
+Proof.
+  intros Hv. split.
+  - intros [H _]. induction l as [|x r IH]; cbn in H.
+    + subst v. exfalso. apply Hv. reflexivity.
+    + destruct (hook x) eqn:E.
+      * destruct (IH H) as (pre & post & -> & Hp). exists (x :: pre), post. split; [reflexivity|].
+        constructor; assumption.
+      * subst x. exists [], r. split; [reflexivity | constructor].
+      * subst x. exists [], r. split; [reflexivity | constructor].
+  - intros (pre & post & -> & Hp). induction Hp as [|x pre Hx Hp IH]; cbn.
+    + destruct (hook v) eqn:E; [congruence | split; [reflexivity|congruence] | split; [reflexivity|congruence]].
+    + rewrite Hx. exact IH.
+Qed.
+
+Lemma stage_verdict_passes_iff l :
+  hook (stage_verdict l) = HookOk <-> Forall (fun x => hook x = HookOk) l.
+Proof.
+  induction l as [|x r IH]; cbn.
+  - split; [constructor | reflexivity].
+  - destruct (hook x) eqn:E.
+    + rewrite IH. split; [intros H; constructor; assumption | intros H; inversion H; assumption].
+    + rewrite E. split; [discriminate | intros H; inversion H; congruence].
+    + rewrite E. split; [discriminate | intros H; inversion H; congruence].
+Qed.
